@@ -45,10 +45,10 @@ CHECKS = {
         design_ref="DESIGN.md §4 C04",
     ),
     "C05": dict(
-        technique="Lean 4 proof (shape of a recognised stereo name; partition theorem for the pairing loop) + exhaustive correspondence of the pairing routine over near-collision lists",
+        technique="Lean 4 proof (shape of a recognised stereo name; partition and channel-order theorems for the pairing loop) + exhaustive correspondence of the pairing routine over near-collision lists",
         text=(
             "Machine-checked so far: C05_stereo_shape — a name is recognised by the pairing rule only if it is stem ++ non-empty run of blanks/hyphens ++ L|R ++ blanks, so two names are paired only when they differ in nothing but that letter. "
-            "C05_partition — for distinct sibling names that end in their last non-blank character (export names are stripped) the indices of the written groups are a permutation of 0..n-1: no sample is lost or duplicated (invariant proof over the pairing loop, Lemmas/Stereo: stereoMatch_build/_alt, go_partition). NOT proved: which half goes to which channel (oracle + correspondence). Tie: the stereo regex on every string of length <= 4 over {A,L,R,' ','-','.','1'}; combine_stereo_routine on every list of <= 3 (thorough 4) distinct names from a 20-name near-collision pool in every order, "
+            "C05_partition — for distinct sibling names that end in their last non-blank character (export names are stripped) the indices of the written groups are a permutation of 0..n-1: no sample is lost or duplicated (invariant proof over the pairing loop, Lemmas/Stereo: stereoMatch_build/_alt, go_partition). C05_channels (Props/C05C) — in every pair the routine writes, the first stream (channel 0, by C12_pair_any) is the sample named `stem sep L` and the second (channel 1) the one named `stem sep R`, same stem and same non-empty separator run, whichever of the two comes first in the directory and whatever else it holds (invariant over the pairing loop; no premise on the names). Tie: the stereo regex on every string of length <= 4 over {A,L,R,' ','-','.','1'}; combine_stereo_routine on every list of <= 3 (thorough 4) distinct names from a 20-name near-collision pool in every order, "
             "random lists after the real export-name pass; oracle: every index exactly once, pairs exactly where names differ only in the final L/R, output names distinct, L in channel 0 through the real combine_stereo + WAV builder for both directory orders."
         ),
         design_ref="DESIGN.md §4 C05",
@@ -56,7 +56,7 @@ CHECKS = {
     "C06": dict(
         technique="Lean 4 proof (uniqueness of assigned names, character set, head and tail of every export name) + exhaustive correspondence of sanitising and de-duplication + end-to-end CDDA exports with hostile titles",
         text=(
-            "Machine-checked so far: C06_export_head — every export name is non-empty and starts with a word character (so no component is empty, '.', '..', or starts with a separator). C06_unique (dedupe_nodup: whatever the candidate names — duplicates, names equal after sanitising, names colliding with a generated `(n)` — the assigned names are pairwise distinct, one per sibling; invariant proofs over groupBy / nextFree / assignGroup / the group loop in Lemmas/Dedupe), C06_charset (every character of an export name is a word character, blank, '-', '.' or '#'), C06_dir_tail (a directory component never ends in '.' or '-'). C06_clean_names_kept (Props/C06N) — a list of pairwise distinct clean names (word characters joined by single inner blanks, '-' or '#'; CleanName) is left exactly as it is by the whole naming pipeline: makeSafeName and makeExportName are the identity on clean names (makeSafeName_clean / makeExportName_clean, through safeReplace_ok / subRuns_ok / strip_clean) and the de-duplication is the identity on a duplicate-free list (dedupe_nodup_id) — this is the premise under which the end-to-end oracles of C01/C02/C10 predict '<volume>/<name>.wav'. NOT proved: that the digits of `(n)` are digits (Nat.repr), confinement on disk (oracle). "
+            "Machine-checked so far: C06_export_head — every export name is non-empty and starts with a word character (so no component is empty, '.', '..', or starts with a separator). C06_unique (dedupe_nodup: whatever the candidate names — duplicates, names equal after sanitising, names colliding with a generated `(n)` — the assigned names are pairwise distinct, one per sibling; invariant proofs over groupBy / nextFree / assignGroup / the group loop in Lemmas/Dedupe), C06_charset (every character of an export name is a word character, blank, '-', '.' or '#'), C06_dir_tail (a directory component never ends in '.' or '-'). C06_clean_names_kept (Props/C06N) — a list of pairwise distinct clean names (word characters joined by single inner blanks, '-' or '#'; CleanName) is left exactly as it is by the whole naming pipeline: makeSafeName and makeExportName are the identity on clean names (makeSafeName_clean / makeExportName_clean, through safeReplace_ok / subRuns_ok / strip_clean) and the de-duplication is the identity on a duplicate-free list (dedupe_nodup_id) — this is the premise under which the end-to-end oracles of C01/C02/C10 predict '<volume>/<name>.wav'. C06_assigned_charset (Props/C06D) — whatever the stored names of the siblings, every name the de-duplication assigns to their export names consists only of word characters, blank, '-', '.', '#', '(' and ')': the counter's digits are digits (natChars_digits, from core's Nat.isDigit_of_mem_toDigits), adding a counter keeps a name inside the set (addCount_pathKeep), and the assignment loop only hands out candidates or candidates with a counter (dedupe_P, generic in the preserved property). NOT proved: confinement on disk (the oracle walks the destination after every end-to-end export). "
             "Tie: make_safe_name/make_export_name on every string of length <= 3 (thorough 4) over an 18-character alphabet with / \\ . : quotes ( ) # and a control character; sanitize_names_general on every sibling list of length <= 3 (thorough 4) from the near-collision pool, both passes; "
             "CDDA exports with '../x', separators, duplicate and blank titles checked on disk (inside destination, #files = #Exported lines, component rules). Found and repaired: D3, D4, D5."
         ),
